@@ -6,6 +6,7 @@ type ClientState struct {
 	Authenticated      bool
 	SelectedFolder     string
 	SelectedMailboxID  int64  // Database ID of selected mailbox
+	ReadOnly           bool   // True if the mailbox was selected with EXAMINE
 	Conn               net.Conn
 	Username           string
 	UserID             int64  // Database ID of authenticated user
